@@ -258,3 +258,67 @@ def replay(c, trace):
         out["cycles"].append(row)
         env = conc.step(env, pairs)
     return out
+
+
+def inject(c, assignment, formula=None):
+    """State-injection replay of a solver counterexample (one clocked step from an arbitrary state).
+    `assignment`: z3 constant name -> int (flip-flops, ghosts, inputs `x`, next-cycle inputs `x'`).  The flip-flops of the
+    real design are loaded with those values under pysim, the inputs applied, one clock stepped; registers and outputs of
+    the real run are compared with the extracted system's concrete evaluation, and `formula` (the negated obligation's
+    target, i.e. what should hold) is evaluated.  Memories cannot be injected: units with writable memories are skipped."""
+    for u in c.units:
+        if any(k[0] == "mem" for k in u.state):
+            return {"supported": False, "why": "unit has a writable memory; contents cannot be injected"}
+    conc = Concrete(c)
+    env = conc.initial()
+    for name, (v, _) in list(env.items()):
+        if name in assignment and z3.is_bv(v) and isinstance(assignment[name], int):
+            env[name] = (v, z3.BitVecVal(assignment[name], v.size()))
+    row0 = {k: assignment.get(str(v), 0) for k, v in conc.inputs.items()}
+    row1 = {k: assignment.get(str(v) + "'", 0) for k, v in conc.inputs.items()}
+    row0 = {k: (x if isinstance(x, int) else 0) for k, x in row0.items()}
+    row1 = {k: (x if isinstance(x, int) else 0) for k, x in row1.items()}
+    for var, expr in c.binds:
+        pass
+    pairs = conc.pairs(env, [row0, row1])
+    res = {"supported": True, "state": {n: p[1].as_long() for n, p in env.items() if z3.is_bv_value(p[1])},
+           "inputs": row0, "next_inputs": row1}
+    if formula is not None:
+        res["obligation_holds"] = conc.ev(formula, pairs)
+    env2 = conc.step(env, pairs)
+    agree, mism = True, ""
+    real_out, real_next = {}, {}
+    if not c.binds:
+        for ts in c.units:
+            s, doms = make_sim(ts)
+            ffs = [(str(ts.state[k]), sig) for k, sig in ts.ff_signal.items()]
+            outs = {n: ts.port_signals[n] for n in ts.outputs}
+            ins = {n: ts.port_signals[n] for n in ts.inputs if n in ts.port_signals}
+
+            async def tb(ctx, ts=ts, ffs=ffs, outs=outs, ins=ins, doms=doms):
+                for name, sig in ffs:
+                    ctx.set(sig, env[name][1].as_long())
+                for n, sg in ins.items():
+                    ctx.set(sg, row0.get(ts.prefix + n, 0) & ((1 << len(sg)) - 1))
+                for n, sg in outs.items():
+                    real_out[ts.prefix + n] = int(ctx.get(sg)) & ((1 << len(sg)) - 1)
+                if doms:
+                    await ctx.tick(doms[0])
+                for name, sig in ffs:
+                    real_next[name] = int(ctx.get(sig)) & ((1 << len(sig)) - 1)
+            s.add_testbench(tb)
+            s.run()
+        for u in c.units:
+            for n, e in u.outputs.items():
+                mine = conc.ev(e, pairs)
+                if mine != real_out[u.prefix + n] and agree:
+                    agree, mism = False, f"output {u.prefix + n}: extracted {mine} != simulator {real_out[u.prefix + n]}"
+        for name, val in real_next.items():
+            mine = env2[name][1].as_long()
+            if mine != val and agree:
+                agree, mism = False, f"next {name}: extracted {mine} != simulator {val}"
+        res["real_outputs"] = real_out
+        res["real_next_registers"] = real_next
+    res["simulator_agrees_with_extraction"] = agree
+    res["mismatch"] = mism
+    return res
